@@ -378,12 +378,15 @@ def finish(ctx, module, exc=None):
     if exc is not None:
         print("HARNESS-ERROR: %s" % exc)
         return EXIT_HARNESS
+    if unknown:
+        # a violation takes precedence over a failed vacuity guard (a broken tree often also starves a guard)
+        for w in failed_guards:
+            print("note: vacuity guard not met on this tree: %s" % w)
+        return EXIT_VIOLATION
     if failed_guards:
         for w in failed_guards:
             print("HARNESS-ERROR: vacuity guard failed: %s" % w)
         return EXIT_HARNESS
-    if unknown:
-        return EXIT_VIOLATION
     print("OK property=%s held on everything explored" % prop)
     return EXIT_OK
 
